@@ -93,6 +93,8 @@ class ScriptedContext:
         self.seq_in = 0
         self.calls_after_complete = 0
         self.events: t.List[t.Tuple[str, t.Any]] = []
+        self.fail_wrap_at: t.Dict[int, str] = {}  # index of the wrap_iov call -> name of the spnego exception it raises (a transient provider error)
+        self.fail_unwrap_at: t.Dict[int, str] = {}
 
     # -- spnego ContextProxy surface used by dpapi-ng
     @property
@@ -129,6 +131,10 @@ class ScriptedContext:
         bufs = _norm(iov)
         self.wraps.append({"iov": bufs, "encrypt": encrypt, "qop": qop})
         self.events.append(("wrap", bufs))
+        if len(self.wraps) - 1 in self.fail_wrap_at:
+            import spnego.exceptions as se
+
+            raise getattr(se, self.fail_wrap_at[len(self.wraps) - 1])(context_msg="scripted provider failure")
         plain = [(ty, d) for ty, d in bufs]
         direction = "c2s" if self.role == "client" else "s2c"
         sig = self._sig(direction, self.seq_out, plain)
